@@ -34,6 +34,9 @@ func Verify(ctx context.Context, in io.Reader, key *dsig.PublicKey) error {
 		return wrapErrorf(http.StatusUnprocessableEntity, "envelope is not signed")
 	}
 	sig := env.Signatures[0]
+	if sig == nil {
+		return wrapErrorf(http.StatusUnprocessableEntity, "envelope signature is empty")
+	}
 	if err := sig.VerifyPayload(key, new(head.Header)); err != nil {
 		return wrapError(http.StatusUnprocessableEntity, err)
 	}
